@@ -210,8 +210,13 @@ def gen_field_value(rng):
         return b""
     if r < 0.2:
         return bytes([rng.choice([0x80, 0xFF, 0xE9])]) + b"obs" + bytes([rng.choice([0x80, 0xFE])])
-    if r < 0.3:
+    if r < 0.27:
         return b"a b\tc"
+    if r < 0.33:
+        # obs-text that happens to be valid UTF-8 and starts / ends with a Unicode white-space character: part of the value (only SP and
+        # HTAB around a value are optional white space)
+        ws = [b"\xc2\xa0", b"\xc2\x85", b"\xe3\x80\x80", b"\xe2\x80\x83", b"\xe2\x80\xa8"]
+        return rng.choice([rng.choice(ws) + b"v" + rng.choice(ws), rng.choice(ws) + b"x", b"y" + rng.choice(ws), rng.choice(ws)])
     n = rng.choice([1, 2, 5, 12, 40]) if rng.random() < 0.9 else rng.randrange(40, 300)
     alphabet = b"abcdefghijklmnopqrstuvwxyz0123456789=;,/:\"()<>@[]{}?-_."
     v = bytes(rng.choice(alphabet) for _ in range(n))
